@@ -14,6 +14,7 @@ import (
 	"io"
 	"os"
 	"sync"
+	"time"
 
 	"github.com/hugelgupf/p9/linux"
 	"github.com/hugelgupf/p9/p9"
@@ -54,6 +55,69 @@ func scale(x, c int, p int) int {
 		f = p - 1
 	}
 	return q*p + f
+}
+
+// smallest: Chunk.tla has chunk >= 1.  An msize that leaves no room for payload (<= 153: the largest fixed
+// message part) must not yield a working-looking client: either it is refused, or I/O through it still
+// makes progress and ends.  msize 154 (payload 1) works byte by byte.
+func smallest(o *out) {
+	for _, ms := range []uint32{152, 153, 154} {
+		o.Cases++
+		auto := puppet.NewAuto()
+		var mu sync.Mutex
+		written := 0
+		auto.Answer = func(c *puppet.Call) (puppet.Result, bool) {
+			if c.K == "WriteAt" {
+				mu.Lock()
+				written += len(c.Args["data"].([]byte))
+				mu.Unlock()
+				return puppet.Result{Res: "ok", Vals: map[string]any{"all": true}}, true
+			}
+			return puppet.Result{}, false
+		}
+		srv := p9.NewServer(&puppet.Attacher{C: auto.C})
+		a, b := peer.NewDuplexPair()
+		go srv.Handle(b, b)
+		cl, err := p9.NewClient(a, p9.WithMessageSize(ms))
+		if err != nil {
+			if ms >= 154 {
+				o.Findings = append(o.Findings, fmt.Sprintf("msize %d (payload %d) refused: %v", ms, ms-153, err))
+			}
+			auto.Stop()
+			continue
+		}
+		done := make(chan string, 1)
+		go func() {
+			root, err := cl.Attach("")
+			if err != nil {
+				done <- "attach: " + err.Error()
+				return
+			}
+			_, f, err := root.Walk([]string{"f1"})
+			if err == nil {
+				_, _, err = f.Open(p9.ReadWrite)
+			}
+			if err != nil {
+				done <- "setup: " + err.Error()
+				return
+			}
+			n, err := f.WriteAt([]byte("abc"), 0)
+			done <- fmt.Sprintf("n=%d err=%v", n, err)
+		}()
+		select {
+		case r := <-done:
+			mu.Lock()
+			w := written
+			mu.Unlock()
+			if ms >= 154 && (r != "n=3 err=<nil>" || w != 3) {
+				o.Findings = append(o.Findings, fmt.Sprintf("msize %d: WriteAt of 3 bytes returned %s, backend received %d bytes", ms, r, w))
+			}
+		case <-time.After(5 * time.Second):
+			o.Findings = append(o.Findings, fmt.Sprintf("client created with msize %d (no room for payload: Chunk.tla needs chunk >= 1): WriteAt of 3 bytes did not finish within 5 s (requests of zero bytes for ever?)", ms))
+		}
+		a.Close()
+		auto.Stop()
+	}
 }
 
 func run(v *vec, msize uint32, base int64, o *out) {
@@ -248,6 +312,9 @@ func main() {
 		os.Exit(2)
 	}
 	o := &out{}
+	if *shard == 0 {
+		smallest(o)
+	}
 	sc := bufio.NewScanner(f)
 	sc.Buffer(make([]byte, 1<<20), 16<<20)
 	i := 0
